@@ -19,4 +19,4 @@ Extraction "../build/gx.ml"
   to_ode minus ceval c_safe is_int
   rhs_matrix jacobian default_tries mentions_assigned base
   save_items find_decl wf_gen gen_rl all_names resv
-  parse_expr print_expr lex parse_string render_expr parse_line write_line parse_block.
+  parse_expr print_expr lex parse_string render_expr parse_line write_line parse_block parse_body logical skipped.
